@@ -30,6 +30,7 @@ ALLOWED = {
     "vsignable": {"OK", "E ArgError", "E SignatureError"},
     "vdeleg": {"OK", "E ArgError", "E SignatureError", "E UnknownRoleError", "E MetadataVerificationError"},
     "vroot": {"OK", "E ArgError", "E SignatureError", "E MetadataVerificationError"},
+    "sign": {"V", "E ArgError"},
 }
 
 
@@ -38,7 +39,16 @@ def kinds(rng):
     ks = [v for v, _ in nonstring_inputs(rng)]
     ks += [proto.KeyObj(False, k.pub), proto.KeyObj(True, k.seed), datetime.timedelta(days=1), datetime.timedelta(0), "x", "", k.hex, {"a": 1}, [k.hex],
            float("inf"), float("-inf"), 10**400, -1, 2**64, 1.0, "2020-01-01T00:00:00Z"]
+    ks += near_envelopes()
     return ks
+
+
+def near_envelopes():
+    """two entries, a signature map, but the other member is not "signed" / is absent / is spelled differently"""
+    k = gen.key(1)
+    md = gen.root_md([k], 1, [k], 1)
+    return [{"signatures": {}, "payload": md}, {"signatures": {k.hex: gen.raw_entry(k, gen.oracle_bytes(md))}, "Signed": md}, {"signatures": {}, "signed ": 1},
+            {"signatures": {}}, {"signed": md}, {"signatures": {}, "signed": md, "x": None}, {"signatures": None, "signed": md}, {"signature": {}, "signed": md}]
 
 
 def run(ck: Check) -> None:
@@ -129,13 +139,27 @@ def run(ck: Check) -> None:
         for v in rng.sample(K, 2):
             cases.append(Case("vroot", [v, b], tag="vroot-arg0", group=2000 + i))
             cases.append(Case("vroot", [a, v], tag="vroot-arg1", group=2000 + i))
+    # near-envelopes in every envelope position of every verifier (and the signer's)
+    k1 = gen.key(1)
+    good_root = gen.sign_env(gen.envelope(gen.root_md([k1], 1, [k1], 1, version=1)), [k1], True, rng)
+    next_root = gen.sign_env(gen.envelope(gen.root_md([k1], 1, [k1], 1, version=2)), [k1], True, rng)
+    for ne in near_envelopes():
+        for gpg in (False, True):
+            cases.append(Case("vsignable", [ne, [k1.hex], 1, gpg], tag="near-envelope", group=9000))
+            cases.append(Case("vdeleg", ["root", ne, good_root, gpg], tag="near-envelope", group=9000))
+            cases.append(Case("vdeleg", ["root", next_root, ne, gpg], tag="near-envelope", group=9000))
+        cases.append(Case("vroot", [ne, next_root], tag="near-envelope", group=9000))
+        cases.append(Case("vroot", [good_root, ne], tag="near-envelope", group=9000))
+        cases.append(Case("check", ["delegating_metadata", ne], tag="near-envelope", group=9000))
+        cases.append(Case("check", ["signable", ne], tag="near-envelope", group=9000))
+        cases.append(Case("sign", [ne, proto.KeyObj(True, k1.seed)], tag="near-envelope", group=9000))
     res = ck.run_cases(cases, "corr:all-validators-and-verifiers/outcome-class")
     for r in res:
         ck.oracle_checks += 1
         allowed = ALLOWED[r.case.op]
         if r.impl not in ("E ArgError", "F") or r.case.tag.endswith(("mutated", "json", "entry")) or "mutated" in r.case.tag:
             ck.nontrivial_add(hash(repr([proto.enc(a) if not isinstance(a, str) else a for a in r.case.args if not isinstance(a, proto.Opaque)]) + r.case.op))
-        if r.impl not in allowed:
+        if (r.impl if not r.impl.startswith("V ") else "V") not in allowed:
             ck.violation("a validator/verifier left its documented outcome families (internal error escaped, or wrong family)",
                          {"call": r.case.op, "args": [(proto.enc(a)[:700] if not isinstance(a, proto.Opaque) else repr(a)) if not (isinstance(a, str) and r.case.op in ('check', 'is') and a is r.case.args[0]) else a for a in r.case.args],
                           "impl": r.impl, "class_of_input": r.case.tag}, f"family:{r.case.op}:{r.impl}:{r.case.tag}")
